@@ -56,6 +56,10 @@ class Evaluator:
     def compare(self, n: ast.Compare, st):
         return EMPTY
 
+    def store_tags(self, target, base_tags, value_tags):
+        """Tags the base of ``base[...] = value`` / ``base.attr = value`` acquires."""
+        return value_tags
+
     def iter_tags(self, it, st):
         """Tags of the loop variable of ``for x in it`` / a comprehension generator."""
         return self.ev(it, st)
@@ -168,7 +172,7 @@ class TagFlow:
             while isinstance(base, (ast.Subscript, ast.Attribute)):
                 base = base.value
             if isinstance(base, ast.Name) and base.id not in ("self", "cls"):
-                st[base.id] = st.get(base.id, EMPTY) | tags
+                st[base.id] = st.get(base.id, EMPTY) | self.evr.store_tags(target, st.get(base.id, EMPTY), tags)
         elif isinstance(target, ast.Starred):
             self._assign(target.value, tags, st)
 
